@@ -429,13 +429,19 @@ class ArgumentParser:
         # directory, whatever their order on the command line.
         args.include_paths = args.include_paths + args.system_include_paths
 
-        # Construct final list of active modes.
-        args.modes = set(args.modes)
+        # Construct final list of active modes, without duplicates and in
+        # the order they were enabled (iterating over a set would make the
+        # order of their definitions depend on the string-hash seed).
+        args.modes = list(dict.fromkeys(args.modes))
 
-        # Construct final list of active passes.
-        args.passes = set(args.passes)
-        args.passes |= set(chain(*args._passes.values()))
-        args.passes |= {"default"}
+        # Construct final list of active passes, in the same way.
+        args.passes = list(
+            dict.fromkeys(
+                list(args.passes)
+                + list(chain(*args._passes.values()))
+                + ["default"],
+            ),
+        )
 
         # Convert the arguments into a list of preprocessor configurations.
         configurations = []
